@@ -66,6 +66,12 @@ var preludeParts = []preludePart{
 (assert (forall ((a Int) (b Int) (c Int) (d Int)) (! (=> (= (tq_ikey a b) (tq_ikey c d)) (and (= a c) (= b d))) :pattern ((tq_ikey a b) (tq_ikey c d)))))`},
 	{"tq_in ", `(declare-fun tq_in (Int) Int)
 (assert (forall ((i Int)) (! (and (<= 0 (tq_in i)) (<= (tq_in i) 255)) :pattern ((tq_in i)))))`},
+	{"tq_key2 ", `(declare-fun tq_key2 (Int Int) Int)
+(assert (forall ((a Int) (b Int) (c Int) (d Int)) (! (=> (= (tq_key2 a b) (tq_key2 c d)) (and (= a c) (= b d))) :pattern ((tq_key2 a b) (tq_key2 c d)))))`},
+	{"tq_key3 ", `(declare-fun tq_key3 (Int Int Int) Int)
+(assert (forall ((a Int) (b Int) (c Int) (d Int) (e Int) (f Int)) (! (=> (= (tq_key3 a b c) (tq_key3 d e f)) (and (= a d) (= b e) (= c f))) :pattern ((tq_key3 a b c) (tq_key3 d e f)))))`},
+	{"tq_key4 ", `(declare-fun tq_key4 (Int Int Int Int) Int)
+(assert (forall ((a Int) (b Int) (c Int) (d Int) (e Int) (f Int) (g Int) (h Int)) (! (=> (= (tq_key4 a b c d) (tq_key4 e f g h)) (and (= a e) (= b f) (= c g) (= d h))) :pattern ((tq_key4 a b c d) (tq_key4 e f g h)))))`},
 	{"tq_isnil ", `(declare-fun tq_isnil (tq_Ref) Bool)`},
 	{"tq_tag ", `(declare-fun tq_tag (tq_Ref) Int)`},
 	{"tq_nilref", `(declare-fun tq_nilref () tq_Ref)
